@@ -14,7 +14,7 @@ import (
 // D7Witness: metrics from h, then an event from h, then the lookup result for h, then an emission.
 const D7Witness = "c11 ; M 0 , c x63 x733a68 1 10 x68 0 ; V 0 , x68 0 7 x74 x78 5 x x 0 0 ; L ; I x68 z ; E"
 
-var srcPool = []string{"10.0.0.1", "10.0.0.2", "h3", "h4"}
+var srcPool = []string{"10.0.0.1", "10.0.0.2", "h3", "h4", "h5"}
 var namePool = []string{"req", "a", "b.c"}
 var tagPool = []string{"t:1", "t:2", "env:p", "zz", "b:x"}
 var memberPool = []string{"u1", "u2", "u3"}
@@ -30,6 +30,8 @@ var instPool = map[string]inst{
 	"10.0.0.2": {"i-2", []string{"app:web"}},
 	"h3":       {"i-3", []string{"zone:z", "app:db"}},
 	"h4":       {"i-3", []string{"zone:z", "app:db"}},
+	// an instance with an id and no tags (a pod without annotations under the k8s provider): the id still becomes the source
+	"h5": {"i-5", nil},
 }
 
 type series struct {
